@@ -264,4 +264,446 @@ theorem selectOverlappingDirs_shape (cfg : Cfg) (l : List DirMeta) (hwf : ∀ d 
     · simp
     · exact ovFind_shape _ _ _ rfl (fun x hx => hwf x (by simp [hx])) hs hnd
 
+/-! ### splitByRange -/
+
+theorem mem_takeWhile_imp' {α} (p : α → Bool) (l : List α) (x : α) (h : x ∈ l.takeWhile p) : p x = true := by
+  induction l with
+  | nil => simp at h
+  | cons y ys ih =>
+    simp only [List.takeWhile_cons] at h
+    split at h
+    · rcases List.mem_cons.mp h with rfl | h'
+      · assumption
+      · exact ih h'
+    · simp at h
+
+
+/-- the code's two-branch formula is floor division, for every (also negative) block start -/
+theorem alignT0_eq_floor (m tr : Int) (htr : 0 < tr) : alignT0 m tr = tr * (m / tr) := by
+  unfold alignT0
+  split
+  · rename_i h
+    rw [Int.tdiv_eq_ediv_of_nonneg (by omega)]
+  · rename_i h
+    have hneg : m - tr + 1 = -(tr - 1 - m) := by omega
+    rw [hneg, Int.neg_tdiv, Int.tdiv_eq_ediv_of_nonneg (by omega)]
+    -- floor(m/tr) = -((tr-1-m)/tr)
+    have h1 := Int.mul_ediv_self_le (x := tr - 1 - m) (k := tr) (by omega)
+    have h2 := Int.lt_mul_ediv_self_add (x := tr - 1 - m) (k := tr) htr
+    have h3 := Int.mul_ediv_self_le (x := m) (k := tr) (by omega)
+    have h4 := Int.lt_mul_ediv_self_add (x := m) (k := tr) htr
+    generalize (tr - 1 - m) / tr = q at *
+    generalize m / tr = p at *
+    -- tr*q ≤ tr-1-m < tr*q + tr ; tr*p ≤ m < tr*p + tr ⇒ p = -q
+    have : p = -q := by
+      have a1 : tr * (p + q) < tr * 1 := by rw [Int.mul_add]; omega
+      have a2 : tr * (-1) < tr * (p + q) := by rw [Int.mul_add]; omega
+      have b1 := Int.lt_of_mul_lt_mul_left a1 (by omega)
+      have b2 := Int.lt_of_mul_lt_mul_left a2 (by omega)
+      omega
+    subst this
+    rw [Int.mul_neg]
+
+theorem alignT0_spec (m tr : Int) (htr : 0 < tr) : alignT0 m tr ≤ m ∧ m < alignT0 m tr + tr := by
+  rw [alignT0_eq_floor m tr htr]
+  exact ⟨Int.mul_ediv_self_le (by omega), Int.lt_mul_ediv_self_add htr⟩
+
+theorem splitByRange_groups (tr : Int) (fuel : Nat) (l : List DirMeta) :
+    ∀ g ∈ splitByRange tr fuel l, ∃ d rest, g = d :: rest ∧ g.Sublist l ∧
+      ∀ x ∈ g, x.bm.maxt ≤ alignT0 d.bm.mint tr + tr := by
+  induction fuel generalizing l with
+  | zero => simp [splitByRange]
+  | succ n ih =>
+    cases l with
+    | nil => simp [splitByRange]
+    | cons d rest =>
+      simp only [splitByRange]
+      split
+      · intro g hg
+        obtain ⟨d', r', h1, h2, h3⟩ := ih rest g hg
+        exact ⟨d', r', h1, h2.cons d, h3⟩
+      · rename_i hle
+        intro g hg
+        rcases List.mem_cons.mp hg with rfl | hg'
+        · refine ⟨d, _, rfl, (List.takeWhile_sublist _).cons_cons d, ?_⟩
+          intro x hx
+          rcases List.mem_cons.mp hx with rfl | hx'
+          · omega
+          · have := mem_takeWhile_imp' _ _ _ hx'
+            simpa using this
+        · obtain ⟨d', r', h1, h2, h3⟩ := ih _ g hg'
+          exact ⟨d', r', h1, (h2.trans (List.dropWhile_sublist _)).cons d, h3⟩
+
+/-! ### selectDirs -/
+
+theorem selectDirsLoop_spec (ds : List DirMeta) (hi : Int) (ivs : List Int) (hpos : ∀ iv ∈ ivs, 0 < iv) :
+    ∃ p, selectDirsLoop ds hi ivs = .ok p ∧
+      (p = [] ∨ ∃ iv ∈ ivs, p ∈ splitByRange iv ds.length ds ∧ partOk iv hi p = true) := by
+  induction ivs with
+  | nil => exact ⟨[], rfl, Or.inl rfl⟩
+  | cons iv ivs ih =>
+    have hiv : 0 < iv := hpos iv (by simp)
+    simp only [selectDirsLoop]
+    rw [if_neg (by omega)]
+    split
+    · rename_i p hp
+      refine ⟨p, rfl, Or.inr ⟨iv, by simp, List.mem_of_find?_eq_some hp, ?_⟩⟩
+      exact List.find?_some hp
+    · obtain ⟨p, h1, h2⟩ := ih (fun x hx => hpos x (by simp [hx]))
+      refine ⟨p, h1, ?_⟩
+      rcases h2 with h2 | ⟨iv', hm, h3⟩
+      · exact Or.inl h2
+      · exact Or.inr ⟨iv', by simp [hm], h3⟩
+
+theorem selectDirs_spec (cfg : Cfg) (ds : List DirMeta) (hpos : ∀ iv ∈ cfg.ranges.tail, 0 < iv) :
+    ∃ p, selectDirs cfg ds = .ok p ∧
+      (p = [] ∨ ∃ iv ∈ cfg.ranges.tail, p ∈ splitByRange iv ds.length ds ∧
+        partOk iv (ds.getLast?.getD default).bm.mint p = true) := by
+  unfold selectDirs
+  split
+  · exact ⟨[], rfl, Or.inl rfl⟩
+  · exact selectDirsLoop_spec ds _ _ hpos
+
+/-! ### tombstones -/
+
+theorem tombRatio_sound (nt ns : Nat) (h : tombRatioExceeds nt ns = true) : ns + 1 < 20 * nt := by
+  simp [tombRatioExceeds] at h; omega
+
+/-- inside `ns + 1 ≤ 2^52` the float comparison and the exact rational rule coincide -/
+theorem tombRatio_exact (nt ns : Nat) (hs : ns + 1 ≤ 2 ^ 52) :
+    tombRatioExceeds nt ns = true ↔ ns + 1 < 20 * nt := by
+  simp [tombRatioExceeds]; omega
+
+theorem midRange_eq (cfg : Cfg) (h : cfg.ranges ≠ []) :
+    cfg.ranges[cfg.ranges.length / 2]? = some (midRange cfg) := by
+  unfold midRange
+  have hl : 0 < cfg.ranges.length := List.length_pos_iff.mpr h
+  have : cfg.ranges.length / 2 < cfg.ranges.length := by omega
+  rw [List.getElem?_eq_getElem this]; rfl
+
+theorem tombPick_spec (cfg : Cfg) (l : List DirMeta) (h : cfg.ranges ≠ []) :
+    ∃ p, tombPick cfg l = .ok p ∧ (p = [] ∨ ∃ v ∈ l, p = [v] ∧ TombRule cfg v.bm) := by
+  induction l with
+  | nil => exact ⟨[], rfl, Or.inl rfl⟩
+  | cons v rest ih =>
+    simp only [tombPick, midRange_eq cfg h]
+    split
+    · rename_i hsmall
+      split
+      · rename_i hd
+        exact ⟨[v], rfl, Or.inr ⟨v, by simp, rfl, Or.inl ⟨hsmall, by omega, by omega⟩⟩⟩
+      · exact ⟨[], rfl, Or.inl rfl⟩
+    · rename_i hbig
+      split
+      · rename_i hr
+        exact ⟨[v], rfl, Or.inr ⟨v, by simp, rfl, Or.inr ⟨by omega, tombRatio_sound _ _ hr⟩⟩⟩
+      · obtain ⟨p, h1, h2⟩ := ih
+        refine ⟨p, h1, ?_⟩
+        rcases h2 with h2 | ⟨w, hw, h3⟩
+        · exact Or.inl h2
+        · exact Or.inr ⟨w, by simp [hw], h3⟩
+
+/-! ### planClass -/
+
+theorem isEmpty_false_iff {α} (l : List α) : (!l.isEmpty) = true ↔ l ≠ [] := by
+  cases l <;> simp
+
+/-- what `planClass` returns, by the branch that produced it -/
+theorem planClass_cases (cfg : Cfg) (dms : List DirMeta) (hok : cfg.Ok) :
+    ∃ p, planClass cfg dms = .ok p ∧
+      (p = [] ∨
+       (p = selectOverlappingDirs cfg (sortByMint dms) ∧ p ≠ []) ∨
+       (selectOverlappingDirs cfg (sortByMint dms) = [] ∧ p ≠ [] ∧ ∃ iv ∈ cfg.ranges.tail,
+          p ∈ splitByRange iv (sortByMint dms).dropLast.length (sortByMint dms).dropLast ∧
+          partOk iv ((sortByMint dms).dropLast.getLast?.getD default).bm.mint p = true) ∨
+       (∃ v ∈ (sortByMint dms).dropLast, p = [v] ∧ TombRule cfg v.bm)) := by
+  unfold planClass
+  split
+  · exact ⟨[], rfl, Or.inl rfl⟩
+  · simp only []
+    split
+    · rename_i h
+      exact ⟨_, rfl, Or.inr (Or.inl ⟨rfl, (isEmpty_false_iff _).mp h⟩)⟩
+    · rename_i hov
+      have hov' : selectOverlappingDirs cfg (sortByMint dms) = [] := by
+        cases h : selectOverlappingDirs cfg (sortByMint dms) with
+        | nil => rfl
+        | cons a b => simp [h] at hov
+      obtain ⟨sel, hsel, hcase⟩ := selectDirs_spec cfg (sortByMint dms).dropLast hok.2
+      rw [hsel]
+      simp only []
+      split
+      · rename_i hne
+        have hne' := (isEmpty_false_iff _).mp hne
+        rcases hcase with h | h
+        · exact absurd h hne'
+        · exact ⟨sel, rfl, Or.inr (Or.inr (Or.inl ⟨hov', hne', h⟩))⟩
+      · obtain ⟨p, hp, hcase⟩ := tombPick_spec cfg (sortByMint dms).dropLast.reverse hok.1
+        refine ⟨p, hp, ?_⟩
+        rcases hcase with h | ⟨v, hv, h1, h2⟩
+        · exact Or.inl h
+        · exact Or.inr (Or.inr (Or.inr ⟨v, by simpa using hv, h1, h2⟩))
+
+/-- `p` is a sublist of a permutation of a sublist of `dms` (what sorting a class and selecting does) -/
+def SubOf (p dms : List DirMeta) : Prop := ∃ cls l, cls.Sublist dms ∧ l.Perm cls ∧ p.Sublist l
+
+theorem SubOf.mem {p dms : List DirMeta} (h : SubOf p dms) : ∀ d ∈ p, d ∈ dms := by
+  obtain ⟨cls, l, h1, h2, h3⟩ := h
+  intro d hd
+  exact h1.subset (h2.mem_iff.mp (h3.subset hd))
+
+theorem SubOf.nodup {p dms : List DirMeta} (h : SubOf p dms) (hn : (dms.map (·.dir)).Nodup) :
+    (p.map (·.dir)).Nodup := by
+  obtain ⟨cls, l, h1, h2, h3⟩ := h
+  have a := hn.sublist (h1.map (·.dir))
+  have b := (h2.map (·.dir)).nodup_iff.mpr a
+  exact b.sublist (h3.map (·.dir))
+
+theorem SubOf.filter_length {p dms : List DirMeta} (h : SubOf p dms) (q : DirMeta → Bool) :
+    (p.filter q).length ≤ (dms.filter q).length := by
+  obtain ⟨cls, l, h1, h2, h3⟩ := h
+  have a := (h3.filter q).length_le
+  have b := (h2.filter q).length_eq
+  have c := (h1.filter q).length_le
+  omega
+
+theorem SubOf.of_sublist {p cls dms : List DirMeta} (h : SubOf p cls) (hs : cls.Sublist dms) : SubOf p dms := by
+  obtain ⟨c, l, h1, h2, h3⟩ := h
+  exact ⟨c, l, h1.trans hs, h2, h3⟩
+
+theorem planClass_subOf (cfg : Cfg) (dms p : List DirMeta) (hok : cfg.Ok) (h : planClass cfg dms = .ok p) :
+    SubOf p dms := by
+  obtain ⟨p', hp', hc⟩ := planClass_cases cfg dms hok
+  rw [h] at hp'; cases hp'
+  have hperm := sortByMint_perm dms
+  refine ⟨dms, sortByMint dms, List.Sublist.refl _, hperm, ?_⟩
+  rcases hc with rfl | ⟨rfl, _⟩ | ⟨_, _, iv, _, hm, _⟩ | ⟨v, hv, rfl, _⟩
+  · exact List.nil_sublist _
+  · exact selectOverlappingDirs_sublist _ _
+  · obtain ⟨d, r, _, hsub, _⟩ := splitByRange_groups _ _ _ p hm
+    exact hsub.trans (List.dropLast_sublist _)
+  · have : [v].Sublist (sortByMint dms).dropLast := List.singleton_sublist.mpr hv
+    exact this.trans (List.dropLast_sublist _)
+
+/-- size/tombstone facts used by the convergence argument (no hypothesis on the blocks) -/
+theorem planClass_size (cfg : Cfg) (dms p : List DirMeta) (hok : cfg.Ok) (h : planClass cfg dms = .ok p) :
+    p = [] ∨ 2 ≤ p.length ∨ ∃ v, p = [v] ∧ 0 < v.bm.numTombstones := by
+  obtain ⟨p', hp', hc⟩ := planClass_cases cfg dms hok
+  rw [h] at hp'; cases hp'
+  rcases hc with rfl | ⟨rfl, hne⟩ | ⟨_, _, iv, _, hm, hpo⟩ | ⟨v, hv, rfl, ht⟩
+  · exact Or.inl rfl
+  · rcases selectOverlappingDirs_length cfg (sortByMint dms) with h0 | h2
+    · exact absurd h0 hne
+    · exact Or.inr (Or.inl h2)
+  · simp only [partOk, Bool.and_eq_true, decide_eq_true_eq] at hpo
+    exact Or.inr (Or.inl hpo.2)
+  · refine Or.inr (Or.inr ⟨v, rfl, ?_⟩)
+    rcases ht with ⟨_, h1, _⟩ | ⟨_, h2⟩ <;> omega
+
+/-! ### shapes of a class plan -/
+
+theorem planClass_shape (cfg : Cfg) (dms p : List DirMeta) (hok : cfg.Ok)
+    (hwf : ∀ d ∈ dms, d.bm.WF) (hnd : (dms.map (·.dir)).Nodup)
+    (hcl : ∀ a ∈ dms, ∀ b ∈ dms, a.bm.cls = b.bm.cls)
+    (h : planClass cfg dms = .ok p) :
+    p = [] ∨ ShapeOverlap cfg p ∨ ShapeRange cfg dms p ∨ ShapeTomb cfg p := by
+  obtain ⟨p', hp', hc⟩ := planClass_cases cfg dms hok
+  rw [h] at hp'; cases hp'
+  have hperm := sortByMint_perm dms
+  have hsorted := sortByMint_sorted dms
+  have hnds : ((sortByMint dms).map (·.dir)).Nodup := (hperm.map (·.dir)).nodup_iff.mpr hnd
+  rcases hc with rfl | ⟨rfl, hne⟩ | ⟨hov, hne, iv, hiv, hm, hpo⟩ | ⟨v, hv, rfl, ht⟩
+  · exact Or.inl rfl
+  · -- overlapping set
+    right; left
+    refine ⟨?_, ?_, ?_⟩
+    · cases hen : cfg.overlapping with
+      | true => rfl
+      | false => exact absurd (selectOverlappingDirs_disabled cfg _ hen) hne
+    · rcases selectOverlappingDirs_length cfg (sortByMint dms) with h0 | h2
+      · exact absurd h0 hne
+      · exact h2
+    · exact selectOverlappingDirs_shape cfg _ (fun d hd => hwf d (hperm.mem_iff.mp hd)) hsorted hnds
+  · -- a group of one aligned range
+    right; right; left
+    have hivpos : 0 < iv := hok.2 iv hiv
+    obtain ⟨d, r, hpd, hsub, hmax⟩ := splitByRange_groups _ _ _ p hm
+    simp only [partOk, Bool.and_eq_true, decide_eq_true_eq, List.all_eq_true, Bool.not_eq_true'] at hpo
+    have hsubs : p.Sublist (sortByMint dms) := hsub.trans (List.dropLast_sublist _)
+    have hps : p.Pairwise (fun a b => a.bm.mint ≤ b.bm.mint) := hsorted.sublist hsubs
+    -- the newest block of the class
+    have hsne : sortByMint dms ≠ [] := by
+      intro h0; rw [h0] at hsubs; rw [hpd] at hsubs; simp at hsubs
+    have hsplit := List.dropLast_concat_getLast hsne
+    generalize hn : (sortByMint dms).getLast hsne = n at hsplit
+    generalize hs' : (sortByMint dms).dropLast = s' at *
+    refine ⟨hpo.2, hpo.1.1, ⟨iv, hiv, d, by rw [hpd]; simp, ?_⟩, ⟨n, ?_, ?_, ?_⟩, ?_⟩
+    · intro b hb
+      rw [← alignT0_eq_floor _ _ hivpos]
+      refine ⟨?_, hmax b hb⟩
+      have hd := (alignT0_spec d.bm.mint iv hivpos).1
+      rw [hpd] at hb hps
+      rcases List.mem_cons.mp hb with rfl | hb'
+      · exact hd
+      · have := (List.pairwise_cons.mp hps).1 b hb'; omega
+    · exact hperm.mem_iff.mp (by rw [← hsplit]; simp)
+    · rw [← hsplit] at hnds
+      simp only [List.map_append, List.map_cons, List.map_nil] at hnds
+      have := (List.nodup_append.mp hnds).2.2
+      intro hmem
+      have hmem' : n.dir ∈ s'.map (·.dir) := (hsub.map (·.dir)).subset hmem
+      exact this _ hmem' _ (by simp) rfl
+    · intro b hb
+      have hbs' : b ∈ s' := hsub.subset hb
+      have hbd : b ∈ dms := hperm.mem_iff.mp (by rw [← hsplit]; simp [hbs'])
+      have hnd' : n ∈ dms := hperm.mem_iff.mp (by rw [← hsplit]; simp)
+      refine ⟨hcl b hbd n hnd', ?_⟩
+      rw [← hsplit] at hsorted
+      exact (List.pairwise_append.mp hsorted).2.2 b hbs' n (by simp)
+    · intro hen
+      have := selectOverlappingDirs_nil cfg _ hen hov
+      refine (this.sublist hsubs).imp ?_
+      intro a b hab hint
+      unfold intersects at hint; omega
+  · -- a single block with tombstones
+    right; right; right
+    exact ⟨rfl, by intro d hd; simp at hd; subst hd; exact ht⟩
+
+/-! ### plan -/
+
+theorem planClass_ok (cfg : Cfg) (dms : List DirMeta) (hok : cfg.Ok) : ∃ p, planClass cfg dms = .ok p := by
+  obtain ⟨p, hp, _⟩ := planClass_cases cfg dms hok
+  exact ⟨p, hp⟩
+
+theorem cls_of_isStale {d : DirMeta} (h : isStale d = true) : d.bm.cls = .stale := by
+  simp [isStale] at h; simp [Meta.cls, h]
+theorem cls_of_isSelected {d : DirMeta} (h : isSelected d = true) : d.bm.cls = .selected := by
+  simp [isSelected] at h; simp [Meta.cls, h]
+theorem cls_of_isNonHint {d : DirMeta} (h : isNonHint d = true) : d.bm.cls = .regular := by
+  simp [isNonHint] at h; simp [Meta.cls, h]
+
+theorem filter_sameClass (dms : List DirMeta) (f : DirMeta → Bool) (c : Cls)
+    (hf : ∀ d, f d = true → d.bm.cls = c) :
+    ∀ a ∈ dms.filter f, ∀ b ∈ dms.filter f, a.bm.cls = b.bm.cls := by
+  intro a ha b hb
+  rw [hf a (List.mem_filter.mp ha).2, hf b (List.mem_filter.mp hb).2]
+
+theorem isEmpty_filter_false {α} (l : List α) (f : α → Bool) (x : α) (hx : x ∈ l) (hf : f x = true) :
+    (l.filter f).isEmpty = false := by
+  have : x ∈ l.filter f := List.mem_filter.mpr ⟨hx, hf⟩
+  cases h : l.filter f with
+  | nil => rw [h] at this; simp at this
+  | cons a b => rfl
+
+theorem planMulti_spec (cfg : Cfg) (dms p : List DirMeta) (hok : cfg.Ok) (h : planMulti cfg dms = .ok p) :
+    ∃ cls, cls.Sublist dms ∧ (∀ a ∈ cls, ∀ b ∈ cls, a.bm.cls = b.bm.cls) ∧ planClass cfg cls = .ok p := by
+  unfold planMulti at h
+  obtain ⟨p1, hp1⟩ := planClass_ok cfg (dms.filter isNonHint) hok
+  rw [hp1] at h
+  simp only [] at h
+  by_cases e1 : (!p1.isEmpty) = true
+  · rw [if_pos e1] at h; cases h
+    exact ⟨_, List.filter_sublist, filter_sameClass dms _ .regular (fun d => cls_of_isNonHint), hp1⟩
+  · rw [if_neg e1] at h
+    obtain ⟨p2, hp2⟩ := planClass_ok cfg (dms.filter isStale) hok
+    rw [hp2] at h
+    simp only [] at h
+    by_cases e2 : (!p2.isEmpty) = true
+    · rw [if_pos e2] at h; cases h
+      exact ⟨_, List.filter_sublist, filter_sameClass dms _ .stale (fun d => cls_of_isStale), hp2⟩
+    · rw [if_neg e2] at h
+      exact ⟨_, List.filter_sublist, filter_sameClass dms _ .selected (fun d => cls_of_isSelected), h⟩
+
+/-- the plan is the `planClass` result of one single-class sub-listing -/
+theorem plan_spec (cfg : Cfg) (dms p : List DirMeta) (hok : cfg.Ok) (h : plan cfg dms = .ok p) :
+    ∃ cls, cls.Sublist dms ∧ (∀ a ∈ cls, ∀ b ∈ cls, a.bm.cls = b.bm.cls) ∧ planClass cfg cls = .ok p := by
+  unfold plan at h
+  by_cases he : dms.isEmpty = true
+  · rw [if_pos he] at h; cases h
+    exact ⟨[], List.nil_sublist _, by simp, by simp [planClass]⟩
+  · rw [if_neg he] at h
+    by_cases hcls : classCount dms > 1
+    · rw [if_pos hcls] at h
+      exact planMulti_spec cfg dms p hok h
+    · rw [if_neg hcls] at h
+      refine ⟨dms, List.Sublist.refl _, ?_, h⟩
+      intro a ha b hb
+      apply Classical.byContradiction
+      intro hne
+      apply hcls
+      have hS : ∀ x ∈ dms, x.bm.cls = .stale → (if (dms.filter isStale).isEmpty then 0 else 1) = 1 := by
+        intro x hx h
+        rw [isEmpty_filter_false dms isStale x hx (by
+          unfold Meta.cls at h; unfold isStale
+          cases h1 : x.bm.stale <;> cases h2 : x.bm.selected <;> simp [h1, h2] at h ⊢)]
+        rfl
+      have hE : ∀ x ∈ dms, x.bm.cls = .selected → (if (dms.filter isSelected).isEmpty then 0 else 1) = 1 := by
+        intro x hx h
+        rw [isEmpty_filter_false dms isSelected x hx (by
+          unfold Meta.cls at h; unfold isSelected
+          cases h1 : x.bm.stale <;> cases h2 : x.bm.selected <;> simp [h1, h2] at h ⊢)]
+        rfl
+      have hR : ∀ x ∈ dms, x.bm.cls = .regular → (if (dms.filter isNonHint).isEmpty then 0 else 1) = 1 := by
+        intro x hx h
+        rw [isEmpty_filter_false dms isNonHint x hx (by
+          unfold Meta.cls at h; unfold isNonHint
+          cases h1 : x.bm.stale <;> cases h2 : x.bm.selected <;> simp [h1, h2] at h ⊢)]
+        rfl
+      unfold classCount
+      cases hca : a.bm.cls <;> cases hcb : b.bm.cls <;>
+        first
+        | exact absurd (hca.trans hcb.symm) hne
+        | (have := hS a ha hca; have := hE b hb hcb; omega)
+        | (have := hS a ha hca; have := hR b hb hcb; omega)
+        | (have := hE a ha hca; have := hS b hb hcb; omega)
+        | (have := hE a ha hca; have := hR b hb hcb; omega)
+        | (have := hR a ha hca; have := hS b hb hcb; omega)
+        | (have := hR a ha hca; have := hE b hb hcb; omega)
+
+theorem planMulti_ok (cfg : Cfg) (dms : List DirMeta) (hok : cfg.Ok) : ∃ p, planMulti cfg dms = .ok p := by
+  unfold planMulti
+  obtain ⟨p1, hp1⟩ := planClass_ok cfg (dms.filter isNonHint) hok
+  rw [hp1]; simp only []
+  by_cases e1 : (!p1.isEmpty) = true
+  · rw [if_pos e1]; exact ⟨_, rfl⟩
+  · rw [if_neg e1]
+    obtain ⟨p2, hp2⟩ := planClass_ok cfg (dms.filter isStale) hok
+    rw [hp2]; simp only []
+    by_cases e2 : (!p2.isEmpty) = true
+    · rw [if_pos e2]; exact ⟨_, rfl⟩
+    · rw [if_neg e2]; exact planClass_ok cfg _ hok
+
+theorem plan_ok (cfg : Cfg) (dms : List DirMeta) (hok : cfg.Ok) : ∃ p, plan cfg dms = .ok p := by
+  unfold plan
+  by_cases he : dms.isEmpty = true
+  · rw [if_pos he]; exact ⟨_, rfl⟩
+  · rw [if_neg he]
+    by_cases hcls : classCount dms > 1
+    · rw [if_pos hcls]; exact planMulti_ok cfg dms hok
+    · rw [if_neg hcls]; exact planClass_ok cfg _ hok
+
+theorem ExcludesNewest.mono {cls dms p : List DirMeta} (h : ExcludesNewest cls p) (hs : cls.Sublist dms) :
+    ExcludesNewest dms p := by
+  obtain ⟨n, hn, h1, h2⟩ := h
+  exact ⟨n, hs.subset hn, h1, h2⟩
+
+theorem plan_allowed (cfg : Cfg) (dms p : List DirMeta) (hok : cfg.Ok)
+    (hwf : ∀ d ∈ dms, d.bm.WF) (hnd : (dms.map (·.dir)).Nodup) (h : plan cfg dms = .ok p) :
+    PlanAllowed cfg dms p := by
+  obtain ⟨cls, hsub, hcl, hpc⟩ := plan_spec cfg dms p hok h
+  have hso : SubOf p dms := (planClass_subOf cfg cls p hok hpc).of_sublist hsub
+  have hndc : (cls.map (·.dir)).Nodup := hnd.sublist (hsub.map (·.dir))
+  have hsh := planClass_shape cfg cls p hok (fun d hd => hwf d (hsub.subset hd)) hndc hcl hpc
+  rcases hsh with h0 | hsh
+  · exact Or.inl h0
+  · right
+    refine ⟨hso.mem, hso.nodup hnd, ?_, ?_⟩
+    · intro a ha b hb
+      have hm := (planClass_subOf cfg cls p hok hpc).mem
+      exact hcl a (hm a ha) b (hm b hb)
+    · rcases hsh with h1 | h2 | h3
+      · exact Or.inl h1
+      · exact Or.inr (Or.inl ⟨h2.1, h2.2.1, h2.2.2.1, h2.2.2.2.1.mono hsub, h2.2.2.2.2⟩)
+      · exact Or.inr (Or.inr h3)
+
 end Prom.CompactPlan
